@@ -3,8 +3,9 @@ use crate::runner::PropSpec;
 pub mod c04;
 pub mod c12;
 pub mod c13;
+pub mod c15;
 pub mod c20;
 
 pub fn all() -> Vec<&'static PropSpec> {
-    vec![&c04::SPEC, &c12::SPEC, &c13::SPEC, &c20::SPEC]
+    vec![&c04::SPEC, &c12::SPEC, &c13::SPEC, &c15::SPEC, &c20::SPEC]
 }
